@@ -9,6 +9,7 @@ package main
 //  (3) the same workload in a binary built with `go build -race` (harness/cmd/c18race).
 
 import (
+	"context"
 	"bytes"
 	"fmt"
 	"os"
@@ -330,9 +331,17 @@ func runC18(c *Ctx) {
 	jobs := c18work.Jobs(c.Seed, c.Pick(96, 480))
 	// cold start under concurrency first: nothing of the library has run in this process yet
 	// (phase-wise: kind after kind of operation, all 16 goroutines released together — c18work.ColdStart)
-	coldRes, coldPhases := c18work.ColdStart(jobs, 16, 16, c.Seed)
+	lim := time.Duration(c.Pick(300, 1800)) * time.Second
+	var coldRes [][]string
+	var coldPhases []string
+	if !c18Within(c, "in-process cold start k=16 procs=16", lim, func() { coldRes, coldPhases = c18work.ColdStart(jobs, 16, 16, c.Seed) }) {
+		return
+	}
 	c.NoteN("cold-start:in-process-phases", len(coldPhases))
-	want := c18work.Sequential(jobs)
+	var want []string
+	if !c18Within(c, "sequential reference run after the cold start", lim, func() { want = c18work.Sequential(jobs) }) {
+		return
+	}
 	coldBad := c18work.Compare(coldRes, want)
 	if len(coldBad) > 0 {
 		c.Oracle("c18-run", false, "concurrent-result-differs", "in-process cold start k=16 procs=16", strings.Join(coldBad, "\n"))
@@ -387,7 +396,13 @@ func runC18(c *Ctx) {
 		}
 	}
 	for ci, cf := range cfgs {
-		results, bad := c18work.Concurrent(jobs, cf.k, cf.reps, cf.procs, c.Seed+uint64(ci))
+		var results [][]string
+		var bad []string
+		if !c18Within(c, fmt.Sprintf("concurrent run k=%d reps=%d procs=%d", cf.k, cf.reps, cf.procs), lim, func() {
+			results, bad = c18work.Concurrent(jobs, cf.k, cf.reps, cf.procs, c.Seed+uint64(ci))
+		}) {
+			return
+		}
 		bad = append(bad, c18work.Compare(results, want)...)
 		n := cf.k * cf.reps * len(jobs)
 		c.NoteN(fmt.Sprintf("concurrent:k=%d,procs=%d:comparisons", cf.k, cf.procs), n)
@@ -444,13 +459,20 @@ func runC18(c *Ctx) {
 	// (the job list is -jobs plus the 19 sequence jobs of c18work.SequenceJobs)
 	rcfgs := []rcfg{{2, c.Pick(3, 60), 2, c.Pick(30, 48)}, {8, c.Pick(1, 20), 8, c.Pick(30, 48)}, {8, c.Pick(1, 20), 3, c.Pick(30, 48)}, {64, c.Pick(1, 6), 16, c.Pick(12, 36)}}
 	for i, rc := range rcfgs {
-		cmd := exec.Command(bin, "-repo", repo, "-seed", fmt.Sprint(c.Seed+uint64(i)), "-jobs", fmt.Sprint(rc.jobs),
+		ctx, cancel := context.WithTimeout(context.Background(), time.Duration(c.Pick(420, 2400))*time.Second)
+		cmd := exec.CommandContext(ctx, bin, "-repo", repo, "-seed", fmt.Sprint(c.Seed+uint64(i)), "-jobs", fmt.Sprint(rc.jobs),
 			"-k", fmt.Sprint(rc.k), "-reps", fmt.Sprint(rc.reps), "-procs", fmt.Sprint(rc.procs))
 		cmd.Env = append(env, "GORACE=halt_on_error=1 exitcode=66")
 		var stdout, stderr bytes.Buffer
 		cmd.Stdout, cmd.Stderr = &stdout, &stderr
 		err := cmd.Run()
+		hung := ctx.Err() == context.DeadlineExceeded
+		cancel()
 		desc := fmt.Sprintf("c18race -seed %d -jobs %d -k %d -reps %d -procs %d", c.Seed+uint64(i), rc.jobs, rc.k, rc.reps, rc.procs)
+		if hung {
+			c.Oracle("c18-race", false, "calls-do-not-return", desc, "the race-detector process did not finish within its time limit: a call into the library no longer returns")
+			continue
+		}
 		n := rc.k * rc.reps * rc.jobs
 		c.mu.Lock()
 		c.res.Evaluations += n
@@ -485,6 +507,22 @@ func runC18(c *Ctx) {
 	}
 }
 
+// c18Within runs f under a watchdog.  Every job is a handful of library calls that take milliseconds; if a whole phase does
+// not finish, some call no longer returns (e.g. a loop driven by a table that a data race left half-initialised): that is
+// a violation of "every call returns exactly what it returns when run alone", reported instead of a check that hangs.
+func c18Within(c *Ctx, what string, d time.Duration, f func()) bool {
+	done := make(chan struct{})
+	go func() { defer close(done); f() }()
+	select {
+	case <-done:
+		return true
+	case <-time.After(d):
+		c.Oracle("c18-run", false, "calls-do-not-return", what,
+			fmt.Sprintf("%s did not finish within %v: a call into the library no longer returns (the same jobs take seconds when run alone)", what, d))
+		return false
+	}
+}
+
 // c18ColdProcesses: the cold-start phases of c18work.ColdStart in FRESH processes — the race-detector binary and a
 // plain build of the same program (no instrumentation: tighter timing, so that a torn first-use initialisation shows
 // as a wrong result or a panic).  Every process gets another seed, i.e. another order of the phases.
@@ -513,16 +551,23 @@ func c18ColdProcesses(c *Ctx, hdir, tmp, raceBin string, env []string, repo stri
 	}
 	for i, cf := range cfgs {
 		seed := c.Seed*1000 + uint64(i) + 17
-		cmd := exec.Command(cf.bin, "-cold", "-repo", repo, "-seed", fmt.Sprint(seed), "-jobs", fmt.Sprint(cf.n), "-k", fmt.Sprint(cf.k), "-procs", fmt.Sprint(cf.procs))
+		ctx, cancel := context.WithTimeout(context.Background(), time.Duration(c.Pick(240, 1200))*time.Second)
+		cmd := exec.CommandContext(ctx, cf.bin, "-cold", "-repo", repo, "-seed", fmt.Sprint(seed), "-jobs", fmt.Sprint(cf.n), "-k", fmt.Sprint(cf.k), "-procs", fmt.Sprint(cf.procs))
 		cmd.Env = append(env, "GORACE=halt_on_error=1 exitcode=66")
 		var stdout, stderr bytes.Buffer
 		cmd.Stdout, cmd.Stderr = &stdout, &stderr
 		err := cmd.Run()
+		hung := ctx.Err() == context.DeadlineExceeded
+		cancel()
 		kind := "plain"
 		if cf.race {
 			kind = "race"
 		}
 		desc := fmt.Sprintf("c18race(%s build) -cold -seed %d -jobs %d -k %d -procs %d", kind, seed, cf.n, cf.k, cf.procs)
+		if hung {
+			c.Oracle("c18-cold", false, "calls-do-not-return", desc, "a fresh process whose first uses of the library happen concurrently did not finish within its time limit: a call into the library no longer returns (cold start)")
+			continue
+		}
 		c.NoteN("cold-start:"+kind+"-processes", 1)
 		c.mu.Lock()
 		c.res.Evaluations += cf.k * (cf.n + 19)
